@@ -10,6 +10,7 @@ from typing import Iterable
 from liquid2.builtin import LambdaExpression
 from liquid2.builtin import Path
 from liquid2.builtin import PositionalArgument
+from liquid2.builtin.expressions import _eq
 from liquid2.builtin.expressions import is_truthy
 from liquid2.exceptions import LiquidTypeError
 from liquid2.filter import sequence_arg
@@ -99,7 +100,7 @@ class WhereFilter(_FilterFilter):
             ]
 
         if value is not None and not is_undefined(value):
-            return [itm for itm in left if _getitem(itm, key) == value]
+            return [itm for itm in left if _eq(_getitem(itm, key), value)]
 
         return [itm for itm in left if is_truthy(_getitem(itm, key))]
 
@@ -126,7 +127,7 @@ class RejectFilter(_FilterFilter):
             ]
 
         if value is not None and not is_undefined(value):
-            return [itm for itm in left if _getitem(itm, key) != value]
+            return [itm for itm in left if not _eq(_getitem(itm, key), value)]
 
         return [itm for itm in left if not is_truthy(_getitem(itm, key))]
 
